@@ -38,6 +38,11 @@ MUTATORS = [
     ("literal-too-big", ["badk : u8 = 300;"], True),
     ("undefined-type", ["badl : NoSuchType = 1;"], True),
     ("call-non-function", ["badm : i32 = 1;", "badn2 :: badm();"], True),
+    ("uninitialised-mutable-as-size", ["badu : usize;", "bad19 : [badu]i32;"], True),
+    ("error-inside-comptime-type", ["okc : comptime { i32 } = 1;", "bad20 : comptime { bad20x : i32 = \"hello\"; i64 } = 5;"], True),
+    ("error-inside-comptime-value", ["okd :: comptime { 2 + 2 };", "bad21 :: comptime { bad21x : bool = 3; 7 };"], True),
+    ("switch-argument-after-switch", ["bado2 : ?i32 = 5;", "switch badsv in bado2 { nil => {}, i32 => {}, };", "bad22 : i32 = badsv;"], True),
+    ("block-local-after-block", ["{ bad23 : i32 = 1; };", "bad23b : i32 = bad23 + 1;"], True),
     ("syntax", ["bads : = ;"], False),
 ]
 
@@ -147,7 +152,7 @@ def replay_payload(payload, scratch):
     return None
 
 
-RULE = ("generated well-typed programs (C01 generator) and twins with exactly one breaking mutation out of 19 (annotation type, struct mismatch, assignment to `::`, write through `^`, "
+RULE = ("generated well-typed programs (C01 generator) and twins with exactly one breaking mutation out of 24 (annotation type, struct mismatch, assignment to `::`, write through `^`, "
         "`:=` local as type / array size, out-of-scope name, missing struct member, extra / missing call argument, wrong return type, non-exhaustive switch, mismatched operands, "
         "deref / index / call of a non-pointer / non-array / non-function, literal too big, undefined type, syntax slip), built with --verbose-types local. "
         "Non-trivial = a mutated twin that is rejected while its unmutated program is accepted; distinct by program text.")
